@@ -265,12 +265,12 @@ func propC10(r *Run) {
 				c.Close() //nolint
 			}
 		}()
-		profile := []int{0, 0, 1, 2, 3}[r.Choose("workload-profile", 5)]
+		profile := []int{0, 0, 1, 2, 3, 4}[r.Choose("workload-profile", 6)]
 		nclients := 1 + r.Choose("nclients", 14)
 		if profile > 0 {
 			nclients = 8 + r.Choose("nclients-storm", 7)
 		}
-		if profile == 3 {
+		if profile == 3 || profile == 4 {
 			nclients = 3 + r.Choose("nclients-changes", 3) // a long series of successful changes (hooks are notified of each)
 		}
 		ncalls := 0
@@ -279,7 +279,7 @@ func propC10(r *Run) {
 			if profile > 0 {
 				n += 2
 			}
-			if profile == 3 {
+			if profile == 3 || profile == 4 {
 				n = 12 + r.Choose("ncalls-changes", 8)
 			}
 			var plan []*Call
@@ -287,6 +287,12 @@ func propC10(r *Run) {
 				if profile == 3 {
 					u := users[r.Choose("user", len(users))]
 					plan = append(plan, &Call{Agent: a.idx, Via: "agent", Kind: "update", User: u, PW: fmt.Sprintf("changed-%d-%d", i, k)})
+					continue
+				}
+				if profile == 4 {
+					// a long series of removals (mostly of users that do not exist: a remove always
+					// reports success and always notifies)
+					plan = append(plan, &Call{Agent: a.idx, Via: "agent", Kind: "remove", User: fmt.Sprintf("ghost-%d-%d", i, k)})
 					continue
 				}
 				plan = append(plan, genCall(r, a.idx, users, model, vias, profile))
@@ -370,6 +376,7 @@ func propC10(r *Run) {
 		if r.Choose("reload-signals", 3) == 0 {
 			prev := o.extra
 			left := 1 + r.Choose("nreload-signals", 4)
+			garbled := false
 			o.wExtra = 3
 			o.extra = func() []action {
 				var out []action
@@ -382,6 +389,15 @@ func propC10(r *Run) {
 						simsignal.Raise(syscall.SIGHUP, -1)
 						r.Count("fault:sighup-reload")
 					}})
+					if orig, ok := w.fs.Get(a.cfgPath); ok && !garbled {
+						out = append(out, action{1, "SIGHUP while the configuration file is half-edited (the reload is refused, the agent carries on)", func() {
+							left--
+							garbled = true
+							w.fs.Put(a.cfgPath, append([]byte("basedir: [unterminated\n"), orig...), 0o600)
+							simsignal.Raise(syscall.SIGHUP, -1)
+							r.Count("fault:sighup-reload-refused")
+						}})
+					}
 				}
 				return out
 			}
